@@ -51,8 +51,27 @@ func (w *Worker) cells(s Str) Str {
 	if neg {
 		cellsV = append(cellsV, int64('-'))
 	}
+	// digits shared by every value in the known interval of |x| are concrete
+	shared := 0
+	var loS string
+	if abs.lo != nil && abs.hi != nil && abs.lo.Sign() >= 0 {
+		loS, hiS := abs.lo.String(), abs.hi.String()
+		if len(loS) == d && len(hiS) == d {
+			for shared < d && loS[shared] == hiS[shared] {
+				shared++
+			}
+		}
+	}
+	if shared > 0 {
+		loS = abs.lo.String()
+	}
 	sum := intConst(0)
 	for i := 0; i < d; i++ {
+		if i < shared {
+			sum = tAdd(tMul(sum, intConst(10)), intConst(int64(loS[i]-'0')))
+			cellsV = append(cellsV, int64(loS[i]))
+			continue
+		}
 		lo := int64(0)
 		if i == 0 && d > 1 {
 			lo = 1
@@ -208,8 +227,7 @@ func init() {
 				return Tuple{s.tag.fpOf, Iface{}}, true
 			}
 			t := s.tag.intOf
-			rm := &Term{op: "const", sort: SFP, raw: "RNE", size: 1}
-			return Tuple{tFP("(_ to_fp 11 53)", SFP, rm, newTerm("to_real", SInt, t)), Iface{}}, true
+			return Tuple{fr.w.intToFloat(t), Iface{}}, true
 		}
 		if cs, ok := s.concrete(); ok {
 			bs, _ := a[1].(int64)
